@@ -738,6 +738,8 @@ Record orun := {
   r_maxpop : option Z;
   r_adaptive : bool;               (* parameter_free scheme of the genetic optimisers *)
   r_ok : bool;                     (* optimise() returned *)
+  r_limit_raise : bool;            (* optimise() raised from inside the limit machinery: stop condition,
+                                      timer, size / depth schedules, iterator *)
   r_pops : list opop;              (* populational: one entry per recorded population *)
   r_started : nat;                 (* evolve steps started *)
   r_broke : bool;                  (* a started step ended with EvaluationAttemptsError *)
@@ -810,7 +812,7 @@ Fixpoint all_but_last {A : Type} (l : list A) : list A :=
   end.
 
 (* --- the property's clauses on an observed run; each clause separately --- *)
-Definition h_accepts (r : orun) : bool := r_ok r.
+Definition h_accepts (r : orun) : bool := negb (r_limit_raise r).
 
 Definition h_generations (r : orun) : bool :=
   match nog (r_lim r) with
